@@ -474,7 +474,7 @@ impl Scheduler {
         }));
 
         // Add our condition variable to the list of wakers scheduled for the queue
-        queue.core.lock().unwrap().wake_blocked.push(Arc::downgrade(&wakeup));
+        queue.core.lock().unwrap().wake_blocked.push((Arc::downgrade(&wakeup), Arc::clone(&ready)));
         
         // Unsafe job with unbounded lifetime is needed because stuff on the queue normally needs a static lifetime
         let need_reschedule = {
@@ -493,15 +493,14 @@ impl Scheduler {
             let mut ready   = ready_mutex.lock().expect("Background job ready lock");
             
             while !*ready {
-                // Use the condition variable to wait for the wakeup
-                ready = wakeup.wait(ready).expect("Background job cvar wait");
-
-                // If we're woken up and the queue is idle, drain it until the result is available
-                if !*ready {
+                // If the queue is idle or pending, drain it on this thread until the result is available. The check is made with
+                // the 'ready' lock held: reschedule_queue takes that lock to signal us, so we can't miss the queue being handed
+                // back between this check and the wait below
+                if self.core.claim_pending_queue(queue) {
                     // Need to drop the lock so we can safely run the queue
                     mem::drop(ready);
 
-                    if self.core.claim_pending_queue(queue) {
+                    {
                         // Set the queue as active (so that it's marked as panicked if one of its jobs panics while we're running it)
                         let _active = ActiveQueue { queue: &*queue };
 
@@ -519,6 +518,9 @@ impl Scheduler {
 
                     // Re-acquire the lock
                     ready = ready_mutex.lock().expect("Background job result lock");
+                } else {
+                    // Use the condition variable to wait for the wakeup
+                    ready = wakeup.wait(ready).expect("Background job cvar wait");
                 }
             }
 
@@ -529,7 +531,7 @@ impl Scheduler {
 
         // Clean up the wakers from the queue (should at least free our one)
         mem::drop(wakeup);
-        queue.core.lock().unwrap().wake_blocked.retain(|waker| waker.strong_count() > 0);
+        queue.core.lock().unwrap().wake_blocked.retain(|(waker, _ready)| waker.strong_count() > 0);
 
         // Return the result
         final_result
